@@ -18,9 +18,12 @@
   be the `bps` the Brutal sender is constructed with; its pacing is C11's subject.
 -/
 import Hy.Proofs.Rate
+import Hy.Proofs.RateConfig
 import Hy.Gen.Core
+import Hy.Gen.App
+set_option linter.unusedSimpArgs false
 namespace Hy.Props.C10
-open Hy Hy.Rate
+open Hy Hy.Rate Hy.RateCfg
 
 /-! ### obligations on facts regenerated from the compiled packages -/
 theorem const_header : Gen.C10_HeaderCCRX = "Hysteria-CC-RX" := by decide
@@ -336,5 +339,199 @@ example : (handshake 1000000 65537 65536 0 false).server = serverTx 65537 65536 
     clientTx { rx := 0, rxAuto := false } 1000000 = { ctl := .brutal 1000000, reported := 1000000 } :=
   ⟨(both_sides_agree_with_PROTOCOL 1000000 65537 65536 0 false (by decide) (by decide)).2.1,
    by decide, by decide⟩
+
+/-! ## where the declared limits come from: the application's bandwidth strings
+
+  Model: Hy.Model.RateConfig — `utils.StringToBps` / `ConvBandwidth` (app/internal/utils/bpsconv.go),
+  `fillBandwidthConfig` of app/cmd/client.go and app/cmd/server.go, and the core validation
+  (core/server `fill`: the 65536 floor; core/client `verifyAndFill`: none). A bandwidth string
+  is  spaces* digits+ spaces* unit spaces*  with unit ∈ {b,bps,k,kb,kbps,m,mb,mbps,g,gb,gbps,
+  t,tb,tbps} in any letter case, meaning digits × 1000^i BITS per second; the core limit is
+  that divided by 8 (rounded down), in bytes per second. "MBps" is therefore megaBITS.
+  `stringToBps` is the code with fixes/D15.patch; the pinned code wraps (see
+  `stringToBps_pinned_counterexample`). -/
+
+/-- the unit switch of the compiled StringToBps (each factor read off `StringToBps("8<unit>")`) -/
+theorem const_units :
+    unitFactor (runesOf "b") = some Gen.C10_Unit_b ∧ unitFactor (runesOf "bps") = some Gen.C10_Unit_bps ∧
+    unitFactor (runesOf "k") = some Gen.C10_Unit_k ∧ unitFactor (runesOf "kb") = some Gen.C10_Unit_kb ∧
+    unitFactor (runesOf "kbps") = some Gen.C10_Unit_kbps ∧
+    unitFactor (runesOf "m") = some Gen.C10_Unit_m ∧ unitFactor (runesOf "mb") = some Gen.C10_Unit_mb ∧
+    unitFactor (runesOf "mbps") = some Gen.C10_Unit_mbps ∧
+    unitFactor (runesOf "g") = some Gen.C10_Unit_g ∧ unitFactor (runesOf "gb") = some Gen.C10_Unit_gb ∧
+    unitFactor (runesOf "gbps") = some Gen.C10_Unit_gbps ∧
+    unitFactor (runesOf "t") = some Gen.C10_Unit_t ∧ unitFactor (runesOf "tb") = some Gen.C10_Unit_tb ∧
+    unitFactor (runesOf "tbps") = some Gen.C10_Unit_tbps := by decide
+
+/-- the compiled unicode tables: the runes ≥ 0x80 that are `unicode.IsSpace`, and the runes
+    ≥ 0x80 whose `unicode.ToLower` is ASCII (hex, as printed by the harness) -/
+theorem const_unicode :
+    Gen.C10_UnicodeSpaces =
+      "85,a0,1680,2000,2001,2002,2003,2004,2005,2006,2007,2008,2009,200a,2028,2029,202f,205f,3000" ∧
+    Gen.C10_LowerToASCII = "130>69,212a>6b" := by decide
+
+/-- …and the model's `isSpace` / `lower` are exactly those tables beyond ASCII -/
+theorem unicode_tables (r : Nat) (h : 0x80 ≤ r) :
+    (isSpace r = true ↔ r ∈ [0x85, 0xa0, 0x1680, 0x2000, 0x2001, 0x2002, 0x2003, 0x2004, 0x2005, 0x2006,
+      0x2007, 0x2008, 0x2009, 0x200a, 0x2028, 0x2029, 0x202f, 0x205f, 0x3000]) ∧
+    lower 0x130 = 0x69 ∧ lower 0x212a = 0x6b ∧ (r ≠ 0x130 → r ≠ 0x212a → lower r = r) := by
+  refine ⟨?_, by decide, by decide, ?_⟩
+  · rw [isSpace_iff]
+    simp only [List.mem_cons, List.not_mem_nil, or_false]
+    constructor <;> intro h1 <;> omega
+  · intro h1 h2
+    have h3 : ¬ (65 ≤ r ∧ r ≤ 90) := by omega
+    simp only [lower, h3, h1, h2, if_false]
+
+/-- StringToBps accepts exactly the grammar, and an accepted string is worth exactly
+    digits × unit / 8 — the product is never reduced modulo 2^64 (D15). -/
+theorem stringToBps_spec (r : List Nat) (n : Nat) :
+    stringToBpsR r = .ok n ↔
+      ∃ pre ds mid u post f, r = pre ++ ds ++ mid ++ u ++ post ∧
+        AllSpace pre ∧ AllSpace mid ∧ AllSpace post ∧ AllDigit ds ∧ ds ≠ [] ∧
+        unitFactor (u.map lower) = some f ∧ digitsVal ds * f ≤ U64Max ∧ n = digitsVal ds * f / 8 := by
+  constructor
+  · intro h
+    obtain ⟨pre, ds, mid, u, post, f, hr, h1, h2, h3, h4, h5, h6, _, hk⟩ := stringToBpsWith_ok _ h
+    refine ⟨pre, ds, mid, u, post, f, hr, h1, h2, h3, h4, h5, h6, ?_, ?_⟩
+    · split at hk
+      · cases hk
+      · rename_i hle; omega
+    · split at hk
+      · cases hk
+      · cases hk; rfl
+  · rintro ⟨pre, ds, mid, u, post, f, hr, h1, h2, h3, h4, h5, h6, hle, hn⟩
+    have hf := (unitFactor_some h6).2.2.2
+    have hv : digitsVal ds ≤ U64Max := Nat.le_trans (Nat.le_mul_of_pos_right _ hf) hle
+    subst hr
+    unfold stringToBpsR
+    rw [stringToBpsWith_grammar _ h1 h2 h3 h4 h5 h6, if_pos hv, if_neg (by omega), hn]
+
+/-- a Go string is decoded to runes first; for ASCII bytes that is the bytes themselves -/
+theorem stringToBps_ascii (s : Bytes) (h : ∀ b ∈ s, b.val < 128) :
+    stringToBps s = stringToBpsR (s.map (·.val)) := by
+  unfold stringToBps; rw [decode_ascii s h]
+
+example : stringToBps (ascii "100 mbps") = .ok 12500000 := by decide
+example : stringToBps (ascii "1g") = .ok 125000000 := by decide
+/-- letter case carries no meaning: "MBps" is megaBITS -/
+example : stringToBps (ascii " 10 MBps ") = .ok 1250000 := by decide
+/-- a plain number has no unit: refused (the app never passes a Go `int` to ConvBandwidth) -/
+example : stringToBps (ascii "65536") = .errFormat ∧ stringToBps (ascii "") = .errFormat ∧
+    stringToBps (ascii "mbps") = .errFormat ∧ stringToBps (ascii "5.4 mbps") = .errUnit ∧
+    stringToBps (ascii "1 mbit") = .errUnit ∧ stringToBps (ascii "18446744073709551616 bps") = .errRange := by decide
+/-- fewer than 8 bit/s is 0 bytes/s, i.e. "no limit" -/
+example : stringToBps (ascii "7 bps") = .ok 0 ∧ stringToBps (ascii "524288 bps") = .ok 65536 := by decide
+
+/-- every accepted value fits uint64 (so it is what travels in Hysteria-CC-RX unchanged) -/
+theorem stringToBps_fits (s : Bytes) (n : Nat) (h : stringToBps s = .ok n) : n ≤ U64Max :=
+  stringToBpsR_ok_le h
+
+/-- D15 on the pinned tree: `v * unit` is a uint64 product, so an absurdly large value is
+    accepted as a small one — even as 0 = "no limit" — where the repaired code refuses it. -/
+theorem stringToBps_pinned_counterexample :
+    stringToBpsPinned (ascii "4503599627370496 tbps") = .ok 0 ∧
+    stringToBpsPinned (ascii "18446744073709552 kbps") = .ok 48 ∧
+    stringToBpsPinned (ascii "20000000 tbps") = .ok 194156990786306048 ∧
+    stringToBps (ascii "4503599627370496 tbps") = .errRange ∧
+    stringToBps (ascii "18446744073709552 kbps") = .errRange ∧
+    stringToBps (ascii "18446744073709551 kbps") = .ok 2305843009213693875 := by decide
+
+/-- `ConvBandwidth(int)`: two's complement — unreachable from a configuration file, whose
+    bandwidth fields are strings -/
+example : convBandwidth (.int (-1)) = .ok U64Max ∧ convBandwidth (.int 12500000) = .ok 12500000 := by decide
+
+/-- what one `bandwidth.up` / `bandwidth.down` string contributes: absent = 0 -/
+def limitOf (s : Bytes) : Option Nat :=
+  if s = [] then some 0 else match stringToBps s with | .ok n => some n | _ => none
+
+theorem limitOf_fits {s : Bytes} {n : Nat} (h : limitOf s = some n) : n ≤ U64Max := by
+  unfold limitOf at h
+  split at h
+  · cases h; exact Nat.zero_le _
+  · split at h
+    · rename_i hok; cases h; exact stringToBps_fits s _ hok
+    · cases h
+
+/-- The limits that enter `serverTx` / `clientTx` are exactly the parsed configuration. The
+    server refuses a non-zero limit below 65536 at configuration time; the client does not. -/
+theorem config_to_limits (c : AppBw) (tx rx : Nat) :
+    (clientConfig c = .ok tx rx ↔ (limitOf c.up = some tx ∧ limitOf c.down = some rx)) ∧
+    (serverConfig c = .ok tx rx ↔
+      (limitOf c.up = some tx ∧ limitOf c.down = some rx ∧
+        (tx = 0 ∨ 65536 ≤ tx) ∧ (rx = 0 ∨ 65536 ≤ rx))) := by
+  have hfill : fillBandwidth stringToBps c =
+      match limitOf c.up, limitOf c.down with
+      | none, _ => .errUp
+      | some _, none => .errDown
+      | some a, some b => .ok a b := by
+    unfold fillBandwidth limitOf
+    cases hu : (if c.up = [] then some 0 else match stringToBps c.up with | .ok n => some n | _ => none) <;>
+      cases hd : (if c.down = [] then some 0 else match stringToBps c.down with | .ok n => some n | _ => none) <;>
+      simp only [hu, hd]
+  have hok : ∀ v, serverLimitOK v = true ↔ (v = 0 ∨ 65536 ≤ v) := by
+    intro v; simp [serverLimitOK]
+  constructor
+  · unfold clientConfig
+    rw [hfill]
+    cases limitOf c.up <;> cases limitOf c.down <;> simp
+  · unfold serverConfig
+    rw [hfill]
+    cases limitOf c.up with
+    | none => simp
+    | some a =>
+      cases limitOf c.down with
+      | none => simp
+      | some b =>
+        simp only [Option.some.injEq]
+        by_cases h1 : serverLimitOK a = true
+        · by_cases h2 : serverLimitOK b = true
+          · have := (hok a).mp h1; have := (hok b).mp h2
+            simp only [h1, h2, Bool.not_true, Bool.false_eq_true, if_false, CfgRes.ok.injEq]
+            constructor
+            · rintro ⟨rfl, rfl⟩; exact ⟨rfl, rfl, by assumption, by assumption⟩
+            · rintro ⟨rfl, rfl, _, _⟩; exact ⟨rfl, rfl⟩
+          · have hn := fun h => h2 ((hok b).mpr h)
+            simp only [h1, h2, Bool.not_true, Bool.false_eq_true, if_false, Bool.not_false, if_true, reduceCtorEq, false_iff]
+            rintro ⟨_, rfl, _, h⟩; exact hn h
+        · have hn := fun h => h1 ((hok a).mpr h)
+          simp only [h1, Bool.not_false, if_true, reduceCtorEq, false_iff]
+          rintro ⟨rfl, _, h, _⟩; exact hn h
+
+example : clientConfig { up := ascii "1 kbps", down := [] } = .ok 125 0 := by decide
+example : serverConfig { up := ascii "1 kbps", down := [] } = .errCoreTx := by decide
+example : serverConfig { up := ascii "524287 bps", down := [] } = .errCoreTx ∧
+    serverConfig { up := ascii "524288 bps", down := ascii "100 Mbps" } = .ok 65536 12500000 ∧
+    serverConfig { up := [], down := ascii "  " } = .errDown := by decide
+
+/-- End to end: with both configuration files accepted, whatever `ignoreClientBandwidth`
+    says, a side that ends up on a fixed rate sends no faster than its own configured limit
+    (when it has one) and no faster than the limit the peer configured for receiving — each
+    being exactly digits × unit / 8 of the string in the file (`stringToBps_spec`). -/
+theorem configured_rate_never_exceeded (cc sc : AppBw) (ign : Bool) (cUp cDown sUp sDown : Nat)
+    (hc : clientConfig cc = .ok cUp cDown) (hs : serverConfig sc = .ok sUp sDown) :
+    let h := handshake cUp cDown sUp sDown ign
+    limitOf cc.up = some cUp ∧ limitOf cc.down = some cDown ∧
+    limitOf sc.up = some sUp ∧ limitOf sc.down = some sDown ∧
+    (sUp = 0 ∨ 65536 ≤ sUp) ∧ (sDown = 0 ∨ 65536 ≤ sDown) ∧
+    (∀ r, h.server.ctl = .brutal r → 0 < r ∧ r ≤ cDown ∧ (sUp ≠ 0 → r ≤ sUp)) ∧
+    (∀ r, h.client.ctl = .brutal r → 0 < r ∧ r ≤ cUp ∧ (sDown ≠ 0 → r ≤ sDown)) := by
+  intro h
+  obtain ⟨c1, c2⟩ := (config_to_limits cc cUp cDown).1.mp hc
+  obtain ⟨s1, s2, s3, s4⟩ := (config_to_limits sc sUp sDown).2.mp hs
+  have hp := both_sides_agree_with_PROTOCOL cUp cDown sUp sDown ign (limitOf_fits c2) (limitOf_fits s2)
+  refine ⟨c1, c2, s1, s2, s3, s4, ?_, ?_⟩
+  · intro r hr
+    have h5 := hp.2.2.2.2.1 r hr
+    have hr' : (serverTx cDown sUp ign).ctl = .brutal r := by rw [← hp.2.1]; exact hr
+    exact ⟨(brutal_le_both_server cDown sUp r ign hr').2.2.1, h5.1, h5.2⟩
+  · intro r hr
+    have h5 := hp.2.2.2.2.2.2.2.1 r hr
+    have hr' : (clientTx { rx := if ign then 0 else sDown, rxAuto := ign } cUp).ctl = .brutal r := by
+      rw [← hp.2.2.1]; exact hr
+    exact ⟨(brutal_le_both_client _ cUp r hr').2.2.1, h5.1, h5.2⟩
+
+example : clientConfig { up := ascii "100 mbps", down := ascii "1 gbps" } = .ok 12500000 125000000 ∧
+    serverConfig { up := ascii "500 mbps", down := [] } = .ok 62500000 0 := by decide
 
 end Hy.Props.C10
